@@ -331,6 +331,16 @@ def run_case(case: dict) -> dict:
     flat_in = instr_list(flat)
     res['line'] = 'noise dress ' + ' '.join(settings_tokens(spec) + instr_tokens(flat_in))
     ns, imap = build_settings(spec)
+    # A defaults sweep: ANOTHER settings object over the SAME overrides dictionary (what `dataclasses.replace` gives) dresses the
+    # circuit first.  What `ns` says afterwards must not depend on it (seeded change C14-m7: a lookup that writes the defaults of the
+    # object at hand into the shared dictionary).
+    try:
+        import dataclasses as _dc
+        other = _dc.replace(ns, default_assignment_error=0.5 - ns.default_assignment_error / 2,
+                            default_t1=ns.default_t1 * 3 + 1e-6, default_t2=ns.default_t2 * 2 + 1e-6)
+        I.apply_noise(circuit, imap, noise_settings=other)
+    except Exception:   # noqa — the warm-up is not what is judged
+        pass
     try:
         out = I.apply_noise(circuit, imap, noise_settings=ns)
     except Exception as e:   # noqa
